@@ -121,6 +121,13 @@ def stmt_faults():
     F["F08h"] = ([svc([("lit", "Fq", fq_json(inner=n(3)))])], 0, None)
     F["F08i"] = ([svc([("lit", "Fin", fin_json(n=("bool", True)))])], 0, None)
     F["F08j"] = ([svc([("lit", "Fq", fq_json(nums=("arr", [n(1), ("str", "x")])))])], 0, None)
+    # an ill-typed element at every position of an array of primitives, not only the last
+    F["F08k"] = ([svc([("lit", "Fq", fq_json(nums=("arr", [("str", "255"), n(2)])))])], 0, None)
+    F["F08l"] = ([svc([("lit", "Fq", fq_json(nums=("arr", [("bool", True), n(2)])))])], 0, None)
+    F["F08m"] = ([svc([("lit", "Fq", fq_json(inner=fin_json(pair=("arr", [("str", "x"), n(2)]))))])], 0, None)
+    F["F08n"] = ([svc([("lit", "Fq", fq_json(items=("arr", [fin_json(), fin_json(pair=("arr", [("bool", False), n(1)]))])))])],
+                 0, None)
+    F["F08o"] = ([svc([("lit", "Fq", fq_json(nums=("arr", [fin_json(), n(2)])))])], 0, None)
     F["F09a"] = ([svc([("lit", "Fq", fq_json(nums=("arr", [n(1), n(2), n(3)])))])], 0, None)
     F["F09b"] = ([svc([("lit", "Fq", fq_json(fixed=("arr", [fin_json()])))])], 0, None)
     F["F09c"] = ([svc([("lit", "Fq", fq_json(inner=fin_json(pair=("arr", [n(1)]))))])], 0, None)
@@ -156,6 +163,13 @@ def stmt_faults():
     F["F18k"] = ([cond(cmp_("*", P("q", "label"), n(2)))], 0, None)
     F["F18l"] = ([cond(P("q", "inner"))], 0, None)
     F["F18m"] = ([cond(cmp_("Or", P("q", "flag"), P("q", "items")))], 0, None)
+    # an array-typed attribute WITHOUT index where a scalar is expected
+    F["F18n"] = ([cond(cmp_("<", P("q", "nums"), n(3)))], 0, None)
+    F["F18o"] = ([cond(cmp_("<", cmp_("+", P("q", "nums"), n(1)), n(3)))], 0, None)
+    F["F18p"] = ([cond(P("q", "nums"))], 0, None)
+    F["F18q"] = ([("count", False, "k", ("path", "q", [("f", "nums")]), [svc()])], 0, None)
+    F["F18r"] = ([("while", cmp_("And", ("bool", False), P("q", "inner", "pair")), [svc()])], 0, None)
+    F["F18s"] = ([("count", True, "k", ("path", "q", [("f", "inner"), ("f", "pair")]), [("call",) + GOOD_CALL])], 0, None)
     F["F20a"] = ([("count", True, "k", ("int", 2), [svc()])], 0, None)
     F["F20b"] = ([("count", True, "k", ("int", 2), [("call",) + GOOD_CALL, ("call",) + GOOD_CALL])], 0, None)
     F["F20c"] = ([("count", True, "k", ("int", 2), [("count", False, "m", ("int", 1), [svc()])])], 0, None)
